@@ -99,6 +99,35 @@ CLAIMED = {
              'integrals (per periodic basis function on periodic spaces). Counter-models replayed on the float code.',
         design_ref='DESIGN.md 4 C09',
         note=TRUST + 'Bounds: degrees 1-5 (thorough 1-6), listed knot families, cells <= 8, uniform-cubic fast path. Solver contracts as C08.'),
+    'C10': dict(
+        category='proof',
+        technique='concolic symbolic execution of the real FluxSurfaceAdvection with the whole surface and the time step symbolic; per-path rational-function identities in dt decided by z3 (nlsat)',
+        text='Bounded solver proof in exact reals: f[theta,z] fully symbolic, dt a real variable sweeping displacements of several cells '
+             'of either sign; the floor of the displacement forks (one path per stencil position, plus the on-node case of the first '
+             'barycentric formula); per output entry z3 decides that the step equals the degree-5 Lagrange interpolation (product form, '
+             'six nodes centred on the foot) of the theta-splines evaluated along the field line with periodic wrap in theta and z. '
+             'Constants preserved, linearity, z-shift commutation and exact circular shift for whole-cell displacements follow.',
+        design_ref='DESIGN.md 4 C10',
+        note=TRUST + 'numpy array division by zero modelled by a poison value that np.where must discard. Rational twist profiles only. '
+                     'Grid-level loop over slices is under C05.'),
+    'C11': dict(
+        category='proof',
+        technique='concolic symbolic execution of the real VParallelAdvection.step with symbolic nodal values and symbolic shift; per-path polynomial identities in the shift decided by z3 (nlsat)',
+        text='Bounded solver proof in exact reals: all nodal values and the shift s=c*dt (|s| <= 1-2 domain widths) symbolic; the '
+             'boundary tests and span searches fork on s; on every path and for every node z3 decides, coefficient by coefficient in '
+             'the data, that the new value is the oracle interpolant at v_i - s, or the equilibrium at (r, foot) / zero / the periodic '
+             'image when the foot is outside [vMin, vMax]; the periodic loop terminates within the bound.',
+        design_ref='DESIGN.md 4 C11',
+        note=TRUST + 'exp/tanh/sqrt uninterpreted with range facts. Grid-level use of the gradient table is checked under C05. Bounds: listed v spaces.'),
+    'C13': dict(
+        category='proof',
+        technique='symbolic execution of the real ParallelGradient with a fully symbolic potential; z3 linear real arithmetic against an independent formula-level oracle',
+        text='Bounded solver proof in exact reals for all potentials: every output entry of parallel_gradient equals b_z(r)/dz times the '
+             'finite-difference combination (weights obtained independently from the moment conditions up to the requested order) of the '
+             'theta-splines of the neighbouring z planes evaluated along the field line, with periodic z wrap, for orders 2-6, constant '
+             'and radius-dependent rotational transform and local radial blocks not starting at 0.',
+        design_ref='DESIGN.md 4 C13',
+        note=TRUST + 'numpy.linalg.solve by exact contract. Convergence order is claimed only through the moment conditions of the weights.'),
     'C16': dict(
         category='proof',
         technique='symbolic execution of the real DensityFinder / poisson_tools on every simulated rank with the whole distribution function symbolic (z3 Reals); linear real arithmetic queries',
